@@ -724,7 +724,7 @@ protected:
             const XalanDOMChar  theChar = chars[i];
 
             if (theChar == XalanUnicode::charRightSquareBracket &&
-                i - length > 2 &&
+                length - i > 2 &&
                 XalanUnicode::charRightSquareBracket == chars[i + 1] &&
                 XalanUnicode::charGreaterThanSign == chars[i + 2])
             {
